@@ -17,6 +17,7 @@ from sqlalchemy.orm import Query
 from ..common.labels import SensorLabel
 from ..data import getDBConnection
 from ..data.observation import Observation
+from ..physics.bodies import Earth
 from ..physics.constants import DAYS2SEC
 from ..physics.orbit_determination.lambert import determineTransferDirection
 from ..physics.orbits.utils import getPeriod, getSemiMajorAxis
@@ -276,8 +277,11 @@ class LambertIOD(InitialOrbitDetermination):
             msg = "No Radar observations to perform Lambert IOD"
             return IODSolution(None, False, msg)
 
+        # [NOTE]: only positions are known before the Lambert solve, so the pass is judged against the period of the
+        #   circular orbit through the final position (a bare position reads as zero speed, i.e. 35% of that period).
+        circular_speed = (Earth.mu / norm(final_position)) ** 0.5
         transit_time = self.checkSinglePass(
-            final_position,
+            concatenate((final_position, (circular_speed, 0.0, 0.0))),
             previous_observation[-1].julian_date,
             current_julian_date,
         )
